@@ -5,6 +5,7 @@ package main
 
 import (
 	"fmt"
+	"sort"
 	"go/ast"
 	"go/constant"
 	"go/token"
@@ -382,7 +383,7 @@ func (env *SpecEnv) evalCall(e *SExpr) Val {
 		case *types.Map:
 			ck := "MC$" + fc.typeName(t.Key()) + "$" + fc.typeName(t.Elem())
 			c := app("select", fc.heapGet(env.st(), ck, "(Array Int Int)"), v.T)
-			if fc.bv {
+			if fc.idxBV() {
 				env.fail(e, "len(map) in bv mode")
 			}
 			return Val{T: c, Ty: tInt}
@@ -448,6 +449,26 @@ func (env *SpecEnv) evalCall(e *SExpr) Val {
 			env.fail(e, "no map range loop %d seen yet", ord)
 		}
 		return Val{T: app("select", fc.heapGet(env.st(), key, srt), arg(1).T), Ty: tBool}
+	case "deref":
+		return fc.deref(env.st(), arg(0), token.NoPos)
+	case "bitsum": // number of set bits of a bit-vector value, as a sum of its bits (definition of popcount)
+		v := arg(0)
+		if !isInteger(v.Ty) || !fc.isBVType(v.Ty) {
+			env.fail(e, "bitsum needs a bit-vector integer")
+		}
+		w := intWidth(v.Ty)
+		var ts []string
+		for i := 0; i < w; i++ {
+			if fc.isBVType(tInt) {
+				ts = append(ts, fmt.Sprintf("((_ zero_extend 63) ((_ extract %d %d) %s))", i, i, v.T))
+			} else {
+				ts = append(ts, fmt.Sprintf("(ite (= ((_ extract %d %d) %s) #b1) 1 0)", i, i, v.T))
+			}
+		}
+		if fc.isBVType(tInt) {
+			return Val{T: app("bvadd", ts...), Ty: tInt}
+		}
+		return Val{T: app("+", ts...), Ty: tInt}
 	case "apply", "safe": // apply(f, args...): value of the pure closure f; safe(f, args...): f's body cannot panic on args
 		f := arg(0)
 		cl, ok := fc.eng.closures[f.T]
@@ -501,6 +522,17 @@ func (env *SpecEnv) findPure(name string) (*PureFn, *ContractSet) {
 			return pf, cs
 		}
 	}
+	// spec functions of other repository packages (e.g. pc of bitmap1024/internal used by bitmap1024)
+	var paths []string
+	for p := range fc.eng.csByPkg {
+		paths = append(paths, p)
+	}
+	sort.Strings(paths)
+	for _, p := range paths {
+		if pf, ok := fc.eng.csByPkg[p].Pures[name]; ok {
+			return pf, fc.eng.csByPkg[p]
+		}
+	}
 	return nil, nil
 }
 
@@ -521,6 +553,11 @@ func (env *SpecEnv) applyPure(pf *PureFn, home *ContractSet, e *SExpr) Val {
 		args = append(args, a)
 	}
 	rt := fc.resolveType(pf.Ret, homePkg)
+	if def, ok := fc.reveal[pf.Name]; ok && pf.Body == nil {
+		if dp, dh := env.findPure(def); dp != nil && dp.Body != nil {
+			pf, home = dp, dh
+		}
+	}
 	if pf.Body == nil {
 		// uninterpreted function (declared once)
 		fn := sym("spec$" + pf.Name)
